@@ -96,6 +96,9 @@ MUTANTS = [
     ("column-as-byte-offset-in-cli", "C11", "R-COLUMN-BYTES", "format_source_excerpt", "crates/parser/src/error.rs",
      "                excerpt_lines.first().unwrap(),\n            );",
      "                &excerpt_lines.first().unwrap()[..(end.column as usize).min(excerpt_lines.first().unwrap().len())],\n            );"),
+    ("stale-index-in-retain", "C06", "R-STALE-INDEX", "list::retain", "crates/runtime/src/core_lib/list.rs",
+     "                        let Some(value) = l.data().get(read_index).cloned() else {\n                            break;\n                        };",
+     "                        let value = l.data()[read_index].clone();"),
     # ---- R-BUILDER-BAL
     ("builder-string-finish-conditional", "C05", "R-BUILDER-BAL", "compile_string", "crates/bytecode/src/compiler.rs",
      "                        if let Some(result_register) = result.register {\n                            self.push_op(Op::StringFinish, &[result_register]);\n                        }",
